@@ -206,6 +206,12 @@ impl Shared {
         Ok(())
     }
 
+    /// Verification hook: one synchronous pass of the freezer thread's loop body.
+    #[cfg(feature = "verif-hooks")]
+    pub fn verif_freeze(&self) -> Result<(), Error> {
+        self.freeze()
+    }
+
     fn wipe_out_frozen_data(
         &self,
         snapshot: &Snapshot,
